@@ -876,6 +876,13 @@ def pair_inputs(d, rng, tier):
     elif fam == "int":
         base = vals[:: max(1, len(vals) // 10)][:10] + [("i", b) for b in getattr(d, "bounds", [])]
         base = [v for v in base if v in vals or True]
+        # adjacent values at the ends of the type and at the frontier where f64 / f32 stop being
+        # exact (a comparison routed through a lossy conversion shows only there; seeded C13_T)
+        from syntax import INT_TYPES, ity_min, ity_max
+        if d.inner in INT_TYPES:
+            lo, hi = ity_min(d.inner), ity_max(d.inner)
+            cand = [lo, lo + 1, hi - 1, hi, 2 ** 24, 2 ** 24 + 1, 2 ** 53, 2 ** 53 + 1, -(2 ** 53), -(2 ** 53) - 1]
+            base += [("i", c) for c in cand if lo <= c <= hi]
     elif fam == "str":
         base = [("s", x) for x in ["", "a", "A", " a", "ab", "\U0001F600", "\uff21", "\ue000", "a\U0001F600", "a\uff21",
                                    "a ", "aB", "b", "a@", "abc", "zz7", "  ", "x", "\U00010400"]]
